@@ -67,6 +67,46 @@ class NewInit(vfx.RecObj):
     self._record('NewInit', locals())
 
 
+class _Missing:
+  """An identity-sensitive default (checked with `is`)."""
+
+  def __repr__(self):
+    return '<MISSING>'
+
+  def __canon__(self):
+    return ('MISSING',)
+
+
+MISSING = _Missing()
+
+
+def sentinel_fn(x=MISSING, y='dy'):
+  r = vfx.rec('sentinel_fn', dict(y=y))
+  r.bound['x_is_the_sentinel'] = x is MISSING
+  r.bound['x'] = x
+  return r
+
+
+NESTED = ((0, 0), (0, 0))
+NESTED_EQUAL = tuple([tuple([0, 0]), tuple([0, 0])])   # equal, distinct object
+
+
+def nested_default_fn(x=NESTED, y=NESTED):
+  return vfx.rec('nested_default_fn', locals())
+
+
+@dataclasses.dataclass
+class DCBase:
+  a: list = dataclasses.field(default_factory=list)
+  b: int = 0
+
+
+@dataclasses.dataclass
+class DCSub(DCBase):
+  a: list = None                 # no longer a factory field
+  c: list = dataclasses.field(default_factory=list)   # a new factory field
+
+
 def node_va(a='da', *args):
   """A named parameter below *args."""
   return vfx.rec('node_va', locals())
@@ -446,12 +486,13 @@ def _register_serialization():
   serialization.register_dict_based_object(InternObj)
   serialization.register_constant('vfx.nodes', 'CONST',
                                   compare_by_identity=True)
+  serialization.register_constant('vfx.nodes', 'MISSING',
+                                  compare_by_identity=True)
   for name in ('HALF', 'ONE', 'AUTO'):
     serialization.register_constant('vfx.nodes', name,
                                     compare_by_identity=False)
 
 
-_register_serialization()
 
 
 def annotated(x='dx', y='dy') -> Base:
@@ -534,3 +575,6 @@ class MakerSub(MakerBase):
 
 # same module and qualified name as `node`, a different object
 node_wrapped = _wrap(node)
+
+
+_register_serialization()
